@@ -30,7 +30,7 @@ RULE = (
   "equal and >=1 world has constraints; distinct = (configuration, assignment, loop form)"
 )
 BOUNDS = {
-  "quick": "L in {0,1,2,3,5,8,50} x tol in {1e-2,1e-6,1e-10} x {Newton,CG} x pyramidal dense; 27 assignments x 2 loop forms each",
+  "quick": "L in {0,1,2,3,5,8,50} x tol in {1e-2,1e-6,1e-10} x {Newton,CG} x pyramidal dense; 27 assignments x 2 loop forms each; plus opt.tolerance x stat.meaninertia batch sizes {1,2,4}^2 (nworld=4, 2 situation assignments, 2 loop forms)",
   "thorough": "same L, tol, solvers x {pyramidal,elliptic} x {dense,sparse}; 27 assignments x 2 loop forms each",
 }
 ASSUMPTIONS = [
@@ -64,7 +64,58 @@ def scenarios(tier, seed):
       for tol in TOLS:
         for L in LS:
           out.append(dict(solver=solver, cone=cone, jac=jac, tol=tol, L=L, variant=v))
+  # per-world termination parameters: opt.tolerance and stat.meaninertia batched with every combination of batch sizes {1,2,4}
+  for cone, jac in combos:
+    for solver in ("Newton", "CG"):
+      for nt, nm in itertools.product((1, 2, 4), repeat=2):
+        if (nt, nm) != (1, 1):
+          out.append(dict(fam="scaled", solver=solver, cone=cone, jac=jac, tol="1e-6", L=200, ntol=nt, nmi=nm, variant=v))
   return out
+
+
+SCALED_TOL = (1e-6, 1e-3, 1e-9, 1e-5)
+SCALED_MI = (1.0, 40.0, 0.02, 6.0)  # factors on the compiled meaninertia
+SCALED_ASSIGN = ("CCCC", "CBCB")
+
+
+def _exec_scaled(scn):
+  """World w of a Model with batched opt.tolerance / stat.meaninertia stops exactly like world w of an unbatched Model holding
+  world w's values (same batch, same situations): niter, ITERATIONS bit and every solver output bit for bit."""
+  import mujoco
+  import warp as wp
+
+  import mujoco_warp as mjw
+
+  cfg = f"{scn['solver']}:{scn['cone']}:{scn['jac']}"
+  mjm = mujoco.MjModel.from_xml_string(XML.format(solver=scn["solver"], cone=scn["cone"], jac=scn["jac"], tol=scn["tol"], L=scn["L"]))
+  st = states(mjm, scn["variant"])
+  c = util.Cmp()
+  nt, nm = scn["ntol"], scn["nmi"]
+
+  def model(tols, mis, gc):
+    m = mjw.put_model(mjm)
+    m.opt.graph_conditional = gc
+    m.opt.warn_overflow = False
+    m.opt.tolerance = wp.array(np.array(tols, np.float32), dtype=float)
+    m.stat.meaninertia = wp.array(np.array(mis, np.float32) * np.float32(mjm.stat.meaninertia), dtype=float)
+    return m
+
+  niters = set()
+  for assign in SCALED_ASSIGN:
+    for gc in (True, False):
+      form = "while" if gc else "fixed"
+      got = _run(mjw, model(SCALED_TOL[:nt], SCALED_MI[:nm], gc), mjm, st, list(assign))
+      for w in range(4):
+        ref = _run(mjw, model([SCALED_TOL[w % nt]], [SCALED_MI[w % nm]], gc), mjm, st, list(assign))[w]
+        niters.add(ref["niter"])
+        k = _same(got[w], ref)
+        c.true(
+          f"tolerance batch {nt} x meaninertia batch {nm}, situations {assign}, {form}: world {w} vs unbatched Model with its values",
+          k is None,
+          "" if k is None else f"differs in {k}: {got[w][k] if k in ('niter', 'bit', 'nefc') else got[w][k][:4]} vs {ref[k] if k in ('niter', 'bit', 'nefc') else ref[k][:4]}",
+          vkey=f"batched_termination_parameter:{'niter_or_bit' if k in ('niter', 'bit') else 'result'}:{cfg}",
+        )
+  return c.result(nontrivial=len(niters) > 1, key=util.sha(scn), info=dict(niters=sorted(niters)), counts=dict(extra_evaluations=15))
 
 
 def states(mjm, v):
@@ -135,6 +186,8 @@ def execute(scn):
   from mujoco_warp._src import types
 
   assert int(types.OverflowType.ITERATIONS) == ITER_BIT
+  if scn.get("fam") == "scaled":
+    return _exec_scaled(scn)
   L = scn["L"]
   cfg = f"{scn['solver']}:{scn['cone']}:{scn['jac']}"
 
